@@ -76,6 +76,11 @@ STRENGTHENED = {
  'C06_9': 'missed at first (plain TimeoutError / RuntimeError injected) -> every second injected failure is an instance of a subclass',
  'C15_9': 'inconclusive at first (`x.index(c)` on proxies forks on every equality; exploration exceeded its budget) -> concrete supplement: sample points with tied coordinates, with the bound clause',
  'C20_4': 'inconclusive at first (`hash(point)` inside the library hit the int-only builtin) -> shim calls the real `__hash__`; the real CPython collision hash(-1.0) == hash(-2.0) as model-selection hint so that the counterexample replays',
+ 'C06_10': 'missed at first (the retry harness ran with the default dummy store) -> `single-dim1-store-attached`: a recording store (one row per id, last write wins) is attached; failed designs must have no row, the evaluated design a row with its final data',
+ 'C09_10': 'missed at first (the parents of the inductive step were pairwise distinct) -> `step-*-first-generation-repeats-a-design`: two parents share one design (discrete parameters), the next generation must still be free of repeats',
+ 'C10_10': 'missed at first (the only `thread_safe=False` history ended with a bulk sync) -> histories in that store mode with rows written one by one only before the store is closed',
+ 'C14_10': 'missed at first (tolerances were declared before the algorithm was built) -> `worst-*-tolerances-declared-after-construction`: symbolic tolerances written into the problem after the algorithm and its evaluator exist',
+ 'C20_10': 'missed at first (every point kept the default stored precision 7) -> equality between points whose `features[\'precision\']` is 0, 2, 3, 10, 12 (equal and different on the two sides), both argument orders',
 }
 print('| seed | change (abridged) | needs | verdict of the check(s) on the patched tree | note |')
 print('|---|---|---|---|---|')
